@@ -141,7 +141,8 @@ def ok(v, out=""):
 
 
 def fail(kind, msg=None, out=""):
-    return ("fail", "fatal", kind, msg, out)
+    # the harness reports the first line of an interrupt's message (the VM appends a stack trace)
+    return ("fail", "fatal", kind, None if msg is None else msg.split("\n")[0], out)
 
 
 def go_div(a, b):
